@@ -7,6 +7,7 @@ import Q1t.Proofs.OpenQasmParam
 import Q1t.Proofs.OpenQasmComplex
 import Q1t.Proofs.OpenQasmComplex2
 import Q1t.Proofs.OpenQasmWitness
+import Q1t.Proofs.OpenQasmWF
 /-!
 # C11 — OpenQASM export preserves circuit semantics or fails
 
@@ -20,8 +21,8 @@ FULL STATEMENT (not proved as one theorem):
   `WellFormed p`, `usesOnlyQelib1 p`, and `run p ≈ Spec.branches c` (per register value the same density matrix
   of final states).
 It is FALSE on the pinned code (negative witnesses below).  What is proved for ALL circuits is the structure
-(`export_structure`, `export_ok_iff`, `export_first_failure`), the refusals (`export_refuses_*`,
-`export_ok_only_expressible`), the tie of the templates to the source (`templates_as_modelled`), that the semantics
+(`export_structure`, `export_ok_iff`, `export_first_failure`), the refusals (`export_refuses`,
+`export_ok_only_expressible`), well-formedness outside the defect classes (`export_wellformed_partial`), the tie of the templates to the source (`templates_as_modelled`), that the semantics
 of a program is the fold of its statements (`semantics_is_fold`); per gate, the meaning of the exported statements
 (all constant gates exactly; RX RY RZ U1 U2 U3 for all angles).
 
@@ -95,6 +96,40 @@ permutation of the whole register, and every gate the exporter reaches has a tra
 theorem export_ok_only_expressible (tbl : List GateTpl) (c : QCircuit P) (ls : List (Line P))
     (h : exportCircuit tbl c = .ok ls) : ∀ op ∈ c.ops, op.expressible tbl c.nc = true :=
   exportCircuit_ok_expressible tbl c ls h
+
+/-! ## Well-formedness outside the defect classes -/
+
+/-- FULL STATEMENT (false on the pinned code, see the negative witnesses): every successful export is a well-formed
+program over `qelib1`.  PROVED for all circuits that are `sound` — a decidable, syntactic class that excludes
+exactly the listed defect classes that concern well-formedness: every gate leaf is a library gate whose template is
+`goodTpl` (all of the table except CU2, CV, CVdg: `good_templates`) with direct (not reference) parameters; no empty
+composite and no loop with 0 iterations; gates and sub-gates on distinct qubits in range with the right arity;
+at least one qubit; measurements in the Z basis with operands in range (what the `Circuit` API accepts); non-empty
+barriers in range.  (Conditional multi-statement gates, empty control lists and over-wide targets are INSIDE the
+class: they are well-formed, only semantically wrong.)  Then the exported lines are a program (`toProgram`) without
+a well-formedness problem (`Spec.OQ2.wfProblem`: registers declared, indices in range, gates known with the right
+numbers of parameters and arguments, closed parameter expressions, distinct qubits) that uses only built-in and
+`qelib1` gates. -/
+theorem export_wellformed_partial (c : QCircuit P) (hs : c.sound libTable = true) (ls : List (Line P))
+    (h : exportCircuit libTable c = .ok ls) :
+    ∃ p, toProgram ls = some p ∧ WellFormed p ∧ usesOnlyQelib1 p = true :=
+  export_wellformed_of_sound libTable c hs ls h
+
+/-- which templates of the table are good: all but CU2, CV, CVdg (names that `qelib1.inc` does not define) -/
+theorem good_templates :
+    (libTable.filter fun t => !goodTpl t).map (·.name) = ["CU2", "CV", "CVdg"] := by decide
+
+/-- a circuit with a Bell pair, a `measure_all` on a repeated bit list, a conditional `Kron(X, CRX(5))` on a permuted
+control list, a loop around `CCRZ(7)` on permuted qubits, a reset and a barrier -/
+def soundSample : QCircuit Nat :=
+  ⟨3, 2, [.gate (.lib "H" []) [0], .gate (.lib "CX" []) [0, 1], .measureAll [1, 0, 1] .Z,
+    .cond [1, 0] 3 (.kron (.lib "X" []) (.lib "CRX" [.direct 5])) [2, 1, 0],
+    .gate (.loop "l" 2 "c" 3 (.cons (.lib "CCRZ" [.direct 7]) [1, 0, 2] .nil)) [0, 1, 2],
+    .reset 0, .barrier [0, 2]]⟩
+
+/-- non-vacuity: the sample is in the class and its export succeeds -/
+example : soundSample.sound libTable = true ∧
+    (match exportCircuit libTable soundSample with | .ok _ => true | _ => false) = true := by decide
 
 /-! ## Tie to the source -/
 
